@@ -74,6 +74,8 @@ func init() {
 			a.checkSignPolarity()
 			a.pickKeysTable()
 			a.headerIsReceived("L.header-raw")
+			a.eventsDelivered("P.events-delivered")
+			a.c09Forget()
 		})
 }
 
@@ -633,4 +635,58 @@ func (a *An) headerIsReceived(rule string) {
 func isZeroConst(v ssa.Value) bool {
 	k, ok := v.(*ssa.Const)
 	return ok && k.Value != nil && k.Value.String() == "0"
+}
+
+// eventsDelivered: an event raised inside the library reaches the user's handler whenever a handler is installed: the
+// three delivery functions call it under the handler != nil test and under no other condition, with the event and
+// the payload they were given.
+func (a *An) eventsDelivered(rule string) {
+	R := a.R
+	for _, spec := range []struct{ fn, handler, method string }{
+		{"(*Conversation).messageEvent", "messageEventHandler", "HandleMessageEvent"},
+		{"(*Conversation).messageEventWithError", "messageEventHandler", "HandleMessageEvent"},
+		{"(*Conversation).messageEventWithMessage", "messageEventHandler", "HandleMessageEvent"},
+		{"(*Conversation).securityEvent", "securityEventHandler", "HandleSecurityEvent"},
+		{"(*Conversation).smpEvent", "smpEventHandler", "HandleSMPEvent"},
+	} {
+		f := a.MustFn(spec.fn)
+		if f == nil {
+			continue
+		}
+		var inv ssa.CallInstruction
+		n := 0
+		for _, g := range a.ownedFns(f) {
+			for _, b := range g.Blocks {
+				for _, in := range b.Instrs {
+					if call, ok := in.(ssa.CallInstruction); ok && call.Common().IsInvoke() && call.Common().Method.Name() == spec.method {
+						inv = call
+						n++
+					}
+				}
+			}
+		}
+		if n != 1 {
+			R.Viol(rule, spec.fn+"|delivers", "the delivery function calls the handler in one place", a.C.Pos(f.Pos()), fmt.Sprintf("%d calls of %s", n, spec.method))
+			continue
+		}
+		var extra []string
+		for _, fact := range a.F.LocalAt(inv).List() {
+			if !strings.HasPrefix(fact, "passed:") {
+				continue
+			}
+			if fact == "passed:(Conversation."+spec.handler+" != nil)" {
+				continue
+			}
+			extra = append(extra, fact)
+		}
+		R.Check(len(extra) == 0, rule, spec.fn+"|unconditional", "the handler is called whenever one is installed", a.C.InstrPos(inv),
+			"the call also depends on "+strings.Join(extra, "; ")+": some events (a received-unencrypted warning, say) are silently not reported")
+		// the event handed on is the event given
+		args := inv.Common().Args
+		if len(args) > 0 {
+			p, isP := a.C.resolveParam(args[0]).(*ssa.Parameter)
+			R.Check(isP && paramIndex(p) == 1, rule, spec.fn+"|event", "the event passed to the handler is the event raised", a.C.InstrPos(inv), "passes "+a.C.Term(args[0]))
+		}
+	}
+	R.Floor(rule, 8)
 }
